@@ -42,10 +42,19 @@ pub fn chunked_body_flow_for(which: usize) -> Result<F<RecvBody>, String> {
     // the coding is announced in several legal spellings
     // (the last one: the list spread over two field lines)
     let te = ["chunked", "Chunked", "gzip, chunked", "chunked,", "chunked", " chunked\t", "gzip\r\nTransfer-Encoding: chunked"][which / CHUNKED_STATUSES.len() % 7];
+    if which % 6 == 4 {
+        // an interim response (102, 103) comes first on one flow in six: the response that counts, and whose
+        // coding is decoded, is the one after it
+        let interim: &[u8] = if which % 12 == 4 { b"HTTP/1.1 103 Early Hints\r\nLink: </s.css>; rel=preload\r\n\r\n" } else { b"HTTP/1.1 102 Processing\r\n\r\n" };
+        let (n, r) = f.try_response(interim).map_err(|e| format!("interim response: {:?}", e))?;
+        if n != interim.len() || r.is_none() {
+            return Err("interim head not accepted".into());
+        }
+    }
     let head = format!("HTTP/1.1 {} X\r\n{}Transfer-Encoding: {}\r\n\r\n", status, extra, te);
     let (n, r) = f.try_response(head.as_bytes()).map_err(|e| format!("{:?}", e))?;
     if n != head.len() || r.is_none() {
-        return Err("head not accepted".into());
+        return Err(format!("the head of the chunked response was not accepted (consumed {} of {}, response {})", n, head.len(), r.is_some()));
     }
     match f.proceed() {
         Some(RecvResponseResult::RecvBody(b)) => Ok(b),
